@@ -85,7 +85,14 @@ def main():
         else:
             na.append({"property_id": pid, "reason": "check not finished yet in this revision of /verif (property-based testing does apply; see DESIGN.md section %s)" % ref})
     engines=[
-      {"name":"fsx","path":"harness/src/engines/fsx.rs","serves_properties":["C01","C02","C03","C04","C05","C07","C16"],"kind_free_text":"proptest-generated histories interpreted against crate + reference model, per-property oracle after every call"},
+      {"name":"fsx","path":"harness/src/engines/fsx.rs","serves_properties":["C01","C02","C03","C04","C05","C06","C07","C08","C16"],"kind_free_text":"proptest-generated histories (geometry x tree x ops) interpreted against crate + reference model; per-property oracle after every call (harness/src/interp.rs, engines/c04.rs, engines/c05.rs, handles.rs)"},
+      {"name":"crash","path":"harness/src/engines/crash.rs","serves_properties":["C09","C10"],"kind_free_text":"generated histories x every prefix of the block-write log, read by the independent reader/checker and a fresh mount"},
+      {"name":"faults","path":"harness/src/engines/faults.rs","serves_properties":["C11"],"kind_free_text":"generated histories x injected device fault at every device-call index (transient, dead-from, multi)"},
+      {"name":"dirgen","path":"harness/src/engines/dirgen.rs","serves_properties":["C06","C17"],"kind_free_text":"byte-level generated directories compared with the independent reader; LFN association expectations by construction"},
+      {"name":"mount","path":"harness/src/engines/mount.rs","serves_properties":["C15"],"kind_free_text":"valid layouts from the independent formatter + enumerated boundary fields + mutated/random sectors"},
+      {"name":"pure","path":"harness/src/engines/pure.rs","serves_properties":["C17","C18","C19"],"kind_free_text":"exhaustive enumerations and proptest round-trips against reference implementations (bit-serial CRC, from_utf16_lossy, reference 8.3 grammar, spec byte offsets)"},
+      {"name":"sdsim","path":"harness/src/sd/","serves_properties":["C12","C13","C14"],"kind_free_text":"simulated SD card on SPI (memory array + protocol monitor + fault script) written from the SD specification; proptest sequences"},
+      {"name":"oracle-side","path":"harness/src/{simdisk,mkfs,fsck}.rs","serves_properties":["C01","C02","C03","C04","C05","C06","C09","C10","C11","C15","C16"],"kind_free_text":"simulated block device with write log / fault plan, independent FAT formatter, independent FAT reader and structural checker (self-tested in setup)"},
     ]
     m={
       "version":1,
